@@ -1082,11 +1082,11 @@ package scipipe
 //@   ghost set outN = update(outN, pt, outN[pt] + 1)
 //@   ensures each-remote-exactly-once[C04]: forall r string :: r in pt.RemotePorts ==> chanSentN(pt.RemotePorts[r].Chan) == old(chanSentN(pt.RemotePorts[r].Chan)) + 1 && chanSentAt(pt.RemotePorts[r].Chan, old(chanSentN(pt.RemotePorts[r].Chan))) == ip
 //@   ensures appended-at-end[C08]: forall r string, j int :: r in pt.RemotePorts && 0 <= j && j < old(chanSentN(pt.RemotePorts[r].Chan)) ==> chanSentAt(pt.RemotePorts[r].Chan, j) == old(chanSentAt(pt.RemotePorts[r].Chan, j))
-//@   ensures other-channels-untouched[C04]: forall c chan *FileIP :: !isRemoteChan(pt, c) ==> chanSentN(c) == old(chanSentN(c))
+//@   ensures other-channels-untouched[C04]: forall c chan *FileIP :: !fresh(c) && !isRemoteChan(pt, c) ==> chanSentN(c) == old(chanSentN(c))
 //@   ensures logged: outN == update(old(outN), pt, old(outN)[pt] + 1) && outAt == update(old(outAt), pt, update(old(outAt)[pt], old(outN)[pt], ip))
 //@   loop 0 invariant vis: forall r string :: $visited[r] ==> r in pt.RemotePorts
 //@   loop 0 invariant sent: forall r string :: $visited[r] ==> chanSentN(pt.RemotePorts[r].Chan) == old(chanSentN(pt.RemotePorts[r].Chan)) + 1 && chanSentAt(pt.RemotePorts[r].Chan, old(chanSentN(pt.RemotePorts[r].Chan))) == ip
 //@   loop 0 invariant not-yet: forall r string :: r in pt.RemotePorts && !$visited[r] ==> chanSentN(pt.RemotePorts[r].Chan) == old(chanSentN(pt.RemotePorts[r].Chan))
 //@   loop 0 invariant earlier-kept: forall r string, j int :: r in pt.RemotePorts && 0 <= j && j < old(chanSentN(pt.RemotePorts[r].Chan)) ==> chanSentAt(pt.RemotePorts[r].Chan, j) == old(chanSentAt(pt.RemotePorts[r].Chan, j))
-//@   loop 0 invariant others: forall c chan *FileIP :: !isRemoteChan(pt, c) ==> chanSentN(c) == old(chanSentN(c))
+//@   loop 0 invariant others: forall c chan *FileIP :: !fresh(c) && !isRemoteChan(pt, c) ==> chanSentN(c) == old(chanSentN(c))
 //@   loop 0 invariant log-untouched: outN == old(outN) && outAt == old(outAt)
